@@ -13,7 +13,7 @@ node z) and abstract time offsets (0..w-1); a *flavour* maps them to concrete id
 import networkx as nx
 
 FLAVOURS = {
-    0: dict(name='int-o0', ids=[0, 1, 2, 3], z=9, origin=0),
+    0: dict(name='int-o-2', ids=[0, 1, 2, 3], z=9, origin=-2),     # the window straddles 0: falsy-zero instants and ids
     1: dict(name='str-o7', ids=['b', 'a', 'c', 'd'], z='z', origin=7),
     2: dict(name='int10-o-3', ids=[12, 10, 11, 13], z=19, origin=-3),
     3: dict(name='tuple-o100', ids=[(1, 'x'), (0, 'y'), (2, 'x'), (3, 'w')], z=(9, 'q'), origin=100),
